@@ -2,7 +2,7 @@
 # try_seed.sh <seed-dir-name> <prop> [tier] : apply seeded patch to /repo, run check, undo.
 d=/verif/seeded/$1; p=$2; tier=${3:-quick}
 git -C /repo apply $d/patch.diff || { echo "patch does not apply"; exit 2; }
-/verif/check $p $tier > /tmp/try_$1_$p.log 2>&1; rc=$?
+VERIF_EVIDENCE_DIR=/tmp/verif_seed_evidence /verif/check $p $tier > /tmp/try_$1_$p.log 2>&1; rc=$?
 git -C /repo checkout -- . ; git -C /repo clean -fdq -- pmtiles >/dev/null 2>&1
 grep -E "VIOLATION|KNOWN|violation\(s\)" /tmp/try_$1_$p.log | head -8
 echo "exit=$rc"
